@@ -127,7 +127,8 @@ ProcDatabaseChanged(e, start, shift, fault) ==
           IF have = e.shards
             THEN \* nothing changed: the assignment is rewritten once to trigger the event
                  /\ UNCHANGED repoAssign
-                 /\ pending' = IF fault = "none" THEN Tail(pending) \o << AssignEv(e.db, cur) >> ELSE Tail(pending)
+                 \* (one write in this branch: only a failure of the FIRST write suppresses the event)
+                 /\ pending' = IF fault = "put1" THEN Tail(pending) ELSE Tail(pending) \o << AssignEv(e.db, cur) >>
           ELSE IF have > e.shards \/ n = 0 \/ e.rf > n \/ e.rf <= 0 \/ fault = "put1"
             THEN UNCHANGED repoAssign /\ pending' = Tail(pending)     \* "not implemented" / error
           ELSE LET add == AssignShards(nodes, have, e.shards - have, e.rf, start, shift)
